@@ -949,7 +949,8 @@ func runLarge(c *mon.Case) {
 func Spec() *mon.Spec {
 	nq, nt := len(sweepUnits(quickN)), len(sweepUnits(thoroughN))
 	return &mon.Spec{
-		ID: "C13", Level: "exploration",
+		ID:            "C13",
+		SpinViolation: true, Level: "exploration",
 		Rule: fmt.Sprintf("Phase sweep is EXHAUSTIVE (no sampling): for every length n = 0..N and every index with integer parts in [-N-2, N+2] in the forms i (as string and as typed int, plus \"-0\"), a..b, a.., ..b, .., a..=b, ..=b, a..=, ..= (N=%d quick: %d indices per container; N=%d thorough: %d), against (1) a list of n distinct elements, (2) an ASCII string of n bytes, (3) every string of n bytes for every composition of n into codepoint sizes 1..4 containing a multi-byte codepoint, plus a variant whose 3-byte codepoints are U+FFFD itself; each pair is run through vals.Index, vals.Assoc and (lists) vals.ConvertListIndex. "+
 			"Phase elvish runs the same index set through the interpreter (put $x[$i] with the index in a variable or, for a third, literally in the source; set x[$i] = $v; assoc $x $i $v) for the list, the ASCII string and up to 3 multi-byte strings per length. The run is inconclusive unless the numbers of pairs equal the enumerated totals. "+
 			"Phase large: random indices with bounds around the length, ±2^31, ±2^32, ±2^63∓{0,1}, ±2^64, 30-digit numbers, other number spellings (+5, 0x, 0b, 0o, _, .0, k/2), malformed strings, typed float / big / rational / non-number indices, lengths up to 2^63-1 for ConvertListIndex, and two indices in one indexing expression. "+
